@@ -461,7 +461,7 @@ class IntegerFieldFormat(AbstractFieldFormat):
                 length_range = ranges.create_range_from_length(length)
             except errors.RangeValueError as error:
                 raise errors.InterfaceError(str(error))
-            except OverflowError:
+            except (MemoryError, OverflowError):
                 raise errors.InterfaceError("length is too big to derive a range of integer numbers: %s" % self.length)
 
         has_rule = (rule is not None) and (rule.strip() != "")
